@@ -28,9 +28,14 @@ CONTRACTS = {
     "unix_nano_to_pv_string": {
         "requires": {
             "range": f"0 <= unix_nano <= {N2100}",
-            "usprec": "unix_nano % 1000 == 0",
         },
-        "ensures": {"exact": "result == pv_str_of(unix_nano // 1000)"},
+        "ensures": {
+            # microsecond-precision instants are converted exactly ...
+            "exact": "implies(unix_nano % 1000 == 0, result == pv_str_of(unix_nano // 1000))",
+            # ... and any nanosecond instant lands on a canonical string less than one microsecond away
+            "canonical": "result == pv_str_of(pv_k(result))",
+            "close": "-1000 < 1000 * pv_k(result) - unix_nano < 1000",
+        },
         "splits": SPLITS_NS,
         "witness": {"unix_nano": "unix_nano"},
         "pure": True,
@@ -57,6 +62,14 @@ LEMMA_ORDER = {
     "requires": [f"0 <= a <= {K2100}", f"0 <= b <= {K2100}", "a < b"],
     "ensures": "unix_nano_to_pv_string(1000 * a) < unix_nano_to_pv_string(1000 * b)",
 }
+LEMMA_ORDER_NS = {
+    "name": "order_preserved_ns",
+    "forall": {"a": "int", "b": "int"},
+    "requires": [f"0 <= a <= {N2100}", f"0 <= b <= {N2100}", "a + 2000 <= b"],
+    "ensures": "unix_nano_to_pv_string(a) < unix_nano_to_pv_string(b)",
+    "hints": ["unix_nano_to_pv_string(a) == pv_str_of(pv_k(unix_nano_to_pv_string(a)))",
+              "unix_nano_to_pv_string(b) == pv_str_of(pv_k(unix_nano_to_pv_string(b)))"],
+}
 LEMMA_US_PRESERVED = {
     "name": "microsecond_value_preserved",
     "forall": {"a": "int", "b": "int"},
@@ -66,7 +79,7 @@ LEMMA_US_PRESERVED = {
 }
 
 ORDER = ["datetime_to_pv_string", "unix_nano_to_pv_string", "convert_timestamp_to_unix_nano",
-         LEMMA_ROUND_TRIP, LEMMA_ORDER, LEMMA_US_PRESERVED]
+         LEMMA_ROUND_TRIP, LEMMA_ORDER, LEMMA_ORDER_NS, LEMMA_US_PRESERVED]
 
 
 def setup(V):
@@ -129,8 +142,22 @@ def _ks(rng, n):
         yield rng.randrange(0, K2100 + 1)
 
 
+def _ns(rng, n):
+    """nanosecond instants: microsecond-aligned ones, plus unaligned ones around every rounding / carry boundary"""
+    for k in _ks(rng, n):
+        yield 1000 * k
+    for s in (0, 1, 59, 86399, 2**30, 2**31 - 1, 2**31, 1_000_000_000, 1_700_000_000, 4102444799):
+        for ns in (1, 499, 500, 501, 999, 1499, 1500, 1501, 499_999_500, 999_998_499, 999_998_500, 999_999_000, 999_999_499,
+                   999_999_500, 999_999_501, 999_999_999):
+            yield s * 10**9 + ns
+    for _ in range(n):
+        yield rng.randrange(0, N2100 + 1)
+    for _ in range(n // 4):
+        yield rng.randrange(0, 4102444800) * 10**9 + 999_999_000 + rng.randrange(0, 1000)
+
+
 GEN = {
-    "unix_nano_to_pv_string": lambda nat, rng, n: ({"unix_nano": 1000 * k} for k in _ks(rng, n)),
+    "unix_nano_to_pv_string": lambda nat, rng, n: ({"unix_nano": v} for v in _ns(rng, n)),
     "convert_timestamp_to_unix_nano": lambda nat, rng, n: ({"iso_timestamp": nat.ns["pv_str_of"](k)} for k in _ks(rng, n)),
 }
 FROM_MODEL = {
